@@ -55,8 +55,10 @@ prop("C06", "proof", "Name.fullcompare is proved totally correct against the RFC
                   "A-order: bytes comparison is a strict total (lexicographic) order on octet strings; its transitivity is instantiated at the deciding label",
                   "L-sum: additivity of the finite sum wirelen (instantiated, not re-proved by the solver)"])
 prop("C07", "other", _GENERIC + "Proved: Name equality contract (shared with C06); dns.set.Set add/remove/discard and the in-place union, "
-     "intersection and difference against set theory over the abstract key set, including the self-aliasing cases. Copying forms, "
-     "insertion order, Rdataset rules and immutability are bounded.", needs_obligations=True,
+     "intersection and difference against set theory over the abstract key set, including the self-aliasing cases; Rdataset.add and "
+     "update_ttl (a record of another class/type or a signature covering another type is refused and nothing changes; singleton "
+     "types replace; TTL minimisation; the covered type is adopted only by an empty set that declared none), modular over Set.add. "
+     "Copying forms, insertion order, the other Rdataset operations and immutability are bounded.", needs_obligations=True,
      assumptions=["A-key: element == is an equivalence with a consistent hash (elements are abstracted as integer identities)"])
 prop("C08", "other", _GENERIC + "Proved: the budget invariant of reserve/release_reserved, Renderer._rollback, and add_question as the "
      "model case of 'a record set that does not fit is removed whole' (on TooBig the buffer, counts and compression table are exactly "
@@ -66,8 +68,12 @@ prop("C09", "other", _GENERIC + "Proved: the CNAME/other-data classification rul
 prop("C10", "other", _GENERIC + "Proved: RFC 1982 Serial arithmetic and comparison contracts and the increment lemma; the transaction "
      "life cycle (_check_ended, _end, commit, rollback, __exit__: ended transactions refuse use, a clean exit commits, an exit through "
      "an exception rolls back and is never swallowed, the ended flag is set whatever the zone's hook does) against an assumed contract "
-     "of the abstract _end_transaction hook. The content of zones after sequences of operations is bounded.",
-     assumptions=["A-hook: each zone kind's _end_transaction commits or rolls back as told (its effect on the zone is checked by the bounded stand-in)"])
+     "of the abstract _end_transaction hook; that hook as implemented for zone transactions (dns.zone.Transaction._end_transaction: "
+     "rollback never publishes, commit publishes exactly the version the transaction built and only if something changed, a reader "
+     "only unregisters) relative to the zone's three entry points, which are under contract for the plain zone here and for the "
+     "versioned zone under C11; Rdataset.add/update_ttl (TTL minimisation on merge, singleton replacement, refusal of foreign "
+     "records without any change). The content of zones after sequences of operations is bounded.",
+     assumptions=["A-hook: Transaction subclasses other than dns.zone.Transaction implement _end_transaction as told (assumed contract)"])
 prop("C11", "other", _GENERIC + "Discharged: the mechanical lock-discipline obligations of dns.versioned.Zone (readers pick and register "
      "their version under the lock); version retention on the real functions in a symbolic heap: _prune_versions_unlocked (only the "
      "old end is removed, never the newest version nor anything at or after the oldest version an open reader holds, for every answer "
